@@ -235,8 +235,9 @@ def r_kernel_call_typestates(ctx, rules=('R15.1', 'R16.2', 'R18.4'), only_funcs:
         if only_funcs is not None and f.name not in only_funcs:
             continue
         tps = wm.train_params.get(f.qual, set())
+        mrts_local = next((k_ for k_, v_ in _keyword_locals(wm, f).items() if v_ == 'MRTS'), 'MRTS')
         for k, st in enumerate(f.node.body):
-            dcall = _kwargs_mrts_resolution(st, 'MRTS', wm, f)
+            dcall = _kwargs_mrts_resolution(st, mrts_local, wm, f)
             if dcall is None:
                 continue
             roots = set()
@@ -264,8 +265,9 @@ def r_kernel_call_typestates(ctx, rules=('R15.1', 'R16.2', 'R18.4'), only_funcs:
         kw = f.node.args.kwarg.arg
         owner = f
         res_idx = None
+        mrts_local = next((k_ for k_, v_ in _keyword_locals(wm, f).items() if v_ == 'MRTS'), 'MRTS')
         for k, st in enumerate(f.node.body):
-            if _kwargs_mrts_resolution(st, 'MRTS', wm, f) is not None:
+            if _kwargs_mrts_resolution(st, mrts_local, wm, f) is not None:
                 res_idx = k
         # calls (also inside nested helpers such as divide_and_conquer) that pass elements of a train list and **kwargs
         nodes = [f.node] + [n for n in ast.walk(f.node) if isinstance(n, ast.FunctionDef) and n is not f.node]
@@ -651,20 +653,29 @@ def r14_5_keyword_flow(ctx, rule: str = 'R14.5') -> List[Ob]:
                 tp = [a.arg for a in t_.node.args.args]
                 passed_pos = tp_pos = [a for a in tp if a not in pre]
                 bound: Set[str] = set(pre)
+                bound_expr: Dict[str, ast.AST] = {}
                 k = 0
                 for a in n.args:
                     if isinstance(a, ast.Starred):
                         break
                     if k < len(tp_pos):
                         bound.add(tp_pos[k])
+                        bound_expr[tp_pos[k]] = a
                     k += 1
                 bound |= {kk.arg for kk in n.keywords if kk.arg}
+                for kk in n.keywords:
+                    if kk.arg:
+                        bound_expr[kk.arg] = kk.value
                 fw_kwargs = any(kk.arg is None for kk in n.keywords)
                 for p in in_scope:
                     if p in tp and p != 'indices' or (p == 'indices' and p in tp):
                         title = f"{f.name}: `{p}` is forwarded to {t_.name}() which accepts it"
                         # a function-valued parameter pre-bound elsewhere (partial) counts as forwarded
-                        if p in bound:
+                        if p in bound_expr and not (isinstance(bound_expr[p], ast.Name) and bound_expr[p].id == p):
+                            obs.append(violation(rule, title, f.loc(n), key=f"{_fn(f)}::{t_.name}::not-forwarded:{p}",
+                                                 detail=f"`{p}` of {t_.name}() is bound to `{ast.unparse(bound_expr[p])[:60]}` although this "
+                                                        f"function has its own `{p}` to pass on"))
+                        elif p in bound:
                             obs.append(ok(rule, title, f.loc(n), construct=f"{_fn(f)}::{t_.name}::fw:{p}"))
                         else:
                             # allowed: the callee is the per-pair function and the selection was already applied
